@@ -6,6 +6,7 @@ package main
 // (JdModel/Cli.lean: cliM) must reproduce exit status, stdout bytes, -o file bytes and the stderr record.
 
 import (
+	"encoding/hex"
 	"bytes"
 	"context"
 	"encoding/json"
@@ -1342,6 +1343,9 @@ func (b *cliBins) runCase(c *cliCfg, dir string, driver string) Case {
 		}
 		cs.Probes = append(cs.Probes, Probe{Kind: "direct", Rel: "C14 reading the second input from stdin is equivalent to naming a file", Want: w})
 	}
+	// patch and translate mode, without the model in between: what the binary emitted is the text the library call
+	// returns for the options the flags denote (up to one trailing newline)
+	cs.Probes = append(cs.Probes, cliEmittedIsLibraryText(c, pe)...)
 	// -git-diff-driver under -v2=false: the flags must be honoured (same output as without -v2=false)
 	if c.Git && c.isV1() && len(c.Args) == 7 {
 		o := *c
@@ -1404,6 +1408,36 @@ func (b *cliBins) runCase(c *cliCfg, dir string, driver string) Case {
 	return cs
 }
 
+// cliEmittedIsLibraryText: in patch / translate mode a successful run must emit exactly the text the library call
+// returned in-process for the options of the plan (model-free form of the first clause of C14)
+func cliEmittedIsLibraryText(c *cliCfg, ev cliEval) []Probe {
+	if !(ev.plan.Mode == "patch" || ev.plan.Mode == "translate") || ev.obs.Exit != 0 || len(ev.res.altTr) > 1 {
+		return nil
+	}
+	key := "pd="
+	if ev.plan.Mode == "translate" {
+		key = "tr="
+	}
+	for _, kv := range ev.res.kv {
+		if strings.HasPrefix(kv, key+"x") {
+			bs, err := hex.DecodeString(kv[len(key)+1:])
+			if err != nil {
+				continue
+			}
+			got := ev.obs.Stdout
+			if ev.obs.Outfile != nil {
+				got = *ev.obs.Outfile
+			}
+			w := "ok"
+			if strings.TrimSuffix(got, "\n") != strings.TrimSuffix(string(bs), "\n") {
+				w = fmt.Sprintf("fail %s emitted %q but the library returns %q for these options", c.cmdline(), short(got), short(string(bs)))
+			}
+			return []Probe{{Kind: "direct", Rel: "C14 patch / translate mode: the bytes emitted are the text the library returns for the options the flags denote", Want: w}}
+		}
+	}
+	return nil
+}
+
 // jd [flags] a b  →  jd -p [flags] <that output> a  must print a document Equal to b
 func (b *cliBins) roundTrip(c *cliCfg, pe cliEval, dir, driver string, docA, docB *Val, in1, in2 string) []Probe {
 	rel := "C14 round trip: jd -p [flags] (jd [flags] a b) a reproduces b"
@@ -1426,6 +1460,7 @@ func (b *cliBins) roundTrip(c *cliCfg, pe cliEval, dir, driver string, docA, doc
 	ev := b.eval(&p, dir, plans[0])
 	ps := []Probe{{Kind: "corr", Rel: "real binary = cliM on the library's results (exit, stdout, -o file, stderr) [-p leg of the round trip]", Line: ev.line, Want: ev.obs.want()}}
 	ps = append(ps, cliProbeStderr("-p leg", ev.obs)...)
+	ps = append(ps, cliEmittedIsLibraryText(&p, ev)...)
 	w := "ok"
 	if ev.obs.Exit != 0 {
 		_, msg := ev.obs.classify()
